@@ -4,17 +4,19 @@ RULE = ("P1: for every strictly increasing integer knot vector with 2..N knots o
         "thorough N=5, XMax=6), two ordinate patterns, every target on the half-integer grid from below the first to "
         "above the last knot plus thirds, and all three modes, TLC checks ICode (scan capped at n-1, separate right "
         "test, dispatch, convex combination) = ISpec (knot exactness, bracketing segment, per-side out-of-range "
-        "handling), plus Inv_Knot and Inv_Between; families 'wide' (neighbouring gaps 1, 2^10, 2^20) and 'many' (50 and"
-        " 200 knots) likewise. P1 also: invariance under rescaling the abscissa axis; P2 (every second case again with "
-        "knots and target times 2^-70 and 2^45): every case replayed through the checked and unchecked variants with "
-        "one and with three targets per call (knot hits compared bit-exactly, others within 2^-40 of the ordinate "
-        "scale), +-1 ulp neighbours of knots must lie between the neighbouring ordinates, an out-of-range target "
-        "between two in-range ones is handled on its own, one ulp beyond either end knot follows the mode (also on an "
-        "integer-shifted axis where the subtraction rounds), targets and knots of -0.0 behave as 0, unsorted abscissae "
-        "(also on an axis scaled by 2^-70, and when only one ulp out of order) and mismatched lengths (fewer ordinates;"
-        " one, two or n surplus ordinates or abscissae) must be rejected; the fill mode returns the fill value of the "
-        "side concerned bit for bit also when the values are -inf, +inf, NaN or zeros of either sign. Case class = "
-        "(family, mode, position of the target: left-oob/first-knot/inside/inner-knot/last-knot/right-oob).")
+        "handling), plus Inv_Knot and Inv_Between; families 'wide' (neighbouring gaps 1, 2^10, 2^20), 'many' (50 and "
+        "200 knots) and 'deceptive' (grids that look evenly spaced from their ends but are not) likewise. P1 also: "
+        "invariance under rescaling the abscissa axis; P2 (every second case again with knots and target times 2^-70 "
+        "and 2^45): every case replayed through the checked and unchecked variants with one and with three targets per "
+        "call (knot hits compared bit-exactly, others within 2^-40 of the ordinate scale), +-1 ulp neighbours of knots "
+        "must lie between the neighbouring ordinates, an out-of-range target between two in-range ones is handled on "
+        "its own, three neighbouring targets (one ulp below, at, one ulp above; both orders) in one call are answered "
+        "as if asked alone, one ulp beyond either end knot follows the mode (also on an integer-shifted axis where the "
+        "subtraction rounds), targets and knots of -0.0 behave as 0, unsorted abscissae (also on an axis scaled by "
+        "2^-70, and when only one ulp out of order) and mismatched lengths (fewer ordinates; one, two or n surplus "
+        "ordinates or abscissae) must be rejected; the fill mode returns the fill value of the side concerned bit for "
+        "bit also when the values are -inf, +inf, NaN or zeros of either sign. Case class = (family, mode, position of "
+        "the target: left-oob/first-knot/inside/inner-knot/last-knot/right-oob).")
 ASSUMPTIONS = ["rational knots/ordinates/targets (exact in f64); equal neighbouring abscissae are outside the property's domain",
                "no P3: the function is stateless and the exhaustive case analysis already covers every branch; random traces would add nothing the spec does not enumerate"]
 EXHAUSTIVE = True
